@@ -216,10 +216,6 @@ func offsetsOf(list []namedOff, hsOnly bool) (out []int64) {
 // The enumeration.  Deterministic; every process (coordinator and shard
 // workers) produces the identical list.
 
-type enumStats struct {
-	parts map[string]int
-}
-
 func enumerate(thorough bool, emit func(*Case)) {
 	prefixes := prefixQuick
 	targets := []int{0, 1, 2, 3}
